@@ -182,8 +182,9 @@ CHECKS = {
                 "slot, hand-picked nestings; thorough adds depth 3) the code produced by compile() (also after a pickle round "
                 "trip), to_python_ast(), to_evaluatable_python_function() and the tree re-imported by ASTToPymbolic are run on "
                 "z3 proxies and z3 proves per path that each returns what the evaluator returns for every argument assignment "
-                "(arithmetic errors compared by class). Argument order for 0-4 unlisted and every permutation of listed "
-                "variables is a path assertion.",
+                "(arithmetic errors compared by class). Argument order is a path assertion over compile histories: one "
+                "expression with 0-8 variables (some named like Python builtins) is compiled again and again in one process "
+                "with every listing of <= 3 names (used or unused), twice round, and pickled.",
         "design_ref": "DESIGN.md §4 C13",
         "note": "Trusted: the evaluator as reference (C02), proxies, z3, CPython's compile/exec of the generated code. Operands "
                 "of logical nodes are boolean-valued in this family. NotImplementedError from a translator is a clean refusal.",
@@ -259,7 +260,7 @@ CHECKS = {
                 "negative exponents refused); extended_euclidean / gcd / lcm on a symbolic pair in a box with divisors realised "
                 "(Bezout identity, divisibility, greatest among all common divisors in the box, lcm*g = |q*r|); fft, ifft(fft) "
                 "and sym_fft on vectors of symbolic complex numbers (pairs of reals in numpy object arrays) for every length "
-                "1..12 (thorough 1..32): z3 (LRA) proves each output within n*1e-9 of the DFT definition with independently "
+                "1..12 (thorough 1..32), both signs, ifft alone: z3 (LRA) proves each output within n*1e-9 of the DFT definition with independently "
                 "computed twiddles for every input in the unit box; Polynomial + - * ** divmod with symbolic integer "
                 "coefficients at a symbolic point against the same operation on values; quotient nodes.",
         "design_ref": "DESIGN.md §4 C19",
@@ -274,7 +275,8 @@ CHECKS = {
                 "boolean per ordered pair), the identifiers each statement slot uses and the caller's filter answer per name are "
                 "symbolic small-domain choices enumerated by z3 with coverage queries; per path the real fuse / disambiguate / "
                 "disambiguate_and_fuse / get_dot_dependency_graph / get_read_variables run and are compared with independent "
-                "scans and a reference transitive reduction (all DAGs on <= 5 statements in 2 listing orders, chains of 6-8 with "
+                "scans and a reference transitive reduction (identifier alphabets include names a fresh-name generator would produce; "
+                "all DAGs on <= 5 statements in 2 listing orders, chains of 6-8 with "
                 "<= 2 shortcut edges in 3 orders; repeated fusion of fused streams).",
         "design_ref": "DESIGN.md §4 C20",
         "note": "Trusted: the harness's identifier scan (variables of lhs, rhs, condition, excluding called function names) and "
@@ -289,7 +291,9 @@ CHECKS = {
                 "seed1, seed2 and all symbolic field values that the unpickled object equals, and hashes like, the object "
                 "rebuilt from source under seed2 - for every node class, 7 user classes (decorated / legacy / mixed) and 6 "
                 "operation orders. Persistent keys (PersistentHashWalkMapper bytes, pytools KeyBuilder digests) are compared "
-                "across object sharing, cached hashes and two hash functions. CompiledExpression pickles. A small concrete "
+                "across object sharing, cached hashes and two hash functions. CompiledExpression pickles; their argument order "
+                "under every pair of hash functions (solver-chosen models of H realising each slot order of the free "
+                "variables in CPython's set table, coverage-checked, set-order model validated on every run). A small concrete "
                 "family runs real producer/consumer interpreters (PYTHONHASHSEED, -O) as confirmation only.",
         "design_ref": "DESIGN.md §4 C17",
         "note": "Partial by nature: real OS processes, CPython's set/dict iteration order under PYTHONHASHSEED and -O "
